@@ -391,9 +391,13 @@ where
         A: GLWEInfos,
         B: BDDKeyInfos,
     {
-        self.circuit_bootstrapping_execute_tmp_bytes(block_size, extension_factor, res_infos, &bdd_infos.cbt_infos())
+        // The LWE temporary is (n + 1) * size * 8 bytes, which is not a multiple of the scratch
+        // alignment: round up so that `threads * tmp_bytes` splits into per-thread windows that
+        // each still hold `tmp_bytes` after `Scratch::split_mut` re-aligns them.
+        (self.circuit_bootstrapping_execute_tmp_bytes(block_size, extension_factor, res_infos, &bdd_infos.cbt_infos())
             + GGSW::bytes_of_from_infos(res_infos)
-            + LWE::bytes_of_from_infos(bits_infos)
+            + LWE::bytes_of_from_infos(bits_infos))
+        .next_multiple_of(poulpy_hal::DEFAULTALIGN)
     }
 
     fn fhe_uint_prepare_custom_multi_thread<DM, DB, DK, K, T: UnsignedInteger>(
